@@ -7,10 +7,26 @@
    sample of the leaf, both sides >= min_samples_leaf, targets as find_best_split numbers them, the
    cluster of the split leaf not emptied).  [valid] = what Kauri.fit checks before the loop.
    [fit P X choose = Done st] : the model of Kauri.fit ended in loop state st (tree_ = st_tree st,
-   labels_ = labels P X st, leaves_ = leaves P X st). *)
+   labels_ = labels P X st, leaves_ = leaves P X st).
+   REGENERATED TIE: [fit], [init], [step], [guard], [add_child], [route], [eff_max_*] are the generic skeleton
+   of Model/KauriTree.v instantiated with [kauri_fit_rules] (Gen/KauriFitRules.v), the holes that
+   translator/tr_kaurifit.py re-reads from kauri.py at every build (and whose skeleton it re-checks).  Every
+   theorem below is therefore about the rules the source states now; Proofs/KauriTree.v section 0 unfolds them. *)
 From Coq Require Import List Arith ZArith Reals Lia.
-From GV Require Import Common.Num Common.NumR Model.KauriTree Proofs.KauriTree.
+From GV Require Import Common.Num Common.NumR Gen.KauriFitRules Model.KauriTree Proofs.KauriTree.
 Import ListNotations.
+
+(* the regenerated holes are the ones this development was written against (hand-written golden copy in
+   Proofs/KauriTree.v: golden_fit_rules); any drift of kauri.py that changes a hole shows up here *)
+Theorem C09_regenerated_rules_are_documented : kauri_fit_rules = golden_fit_rules.
+Proof. exact rules_golden. Qed.
+(* what the regenerated pre-loop tests mean: fit only proceeds when 2*min_samples_leaf <= min_samples_split and
+   n >= min_samples_leaf; the feature subset handed to find_best_split always has a legal size *)
+Theorem C09_valid_parameters_documented : forall P d X, valid P d X ->
+  2 * min_samples_leaf P <= min_samples_split P /\ min_samples_leaf P <= length X.
+Proof. exact (fun P d X V => conj (valid_contra P d X V) (valid_n_msl P d X V)). Qed.
+Theorem C09_max_features_in_range : forall mf d, 1 <= d -> 1 <= eff_max_features mf d <= d.
+Proof. exact rule_max_features. Qed.
 
 (* the loop of Kauri.fit always ends (the fuel of the model is never exhausted) ... *)
 Theorem C09_fit_terminates : forall P d X choose, valid P d X -> oracle_ok P d X choose ->
@@ -134,10 +150,13 @@ Example C09_nonvacuous :
   | OutOfFuel => False
   end.
 Proof.
-  cbv zeta. split; [constructor; cbn; try lia; intros m H; injection H as <-; lia|].
+  cbv zeta. split; [constructor; cbn; try lia; try reflexivity; intros m H; injection H as <-; lia|].
   split; [apply replay_oracle_ok|]. vm_compute. repeat split.
 Qed.
 
+Print Assumptions C09_regenerated_rules_are_documented.
+Print Assumptions C09_valid_parameters_documented.
+Print Assumptions C09_max_features_in_range.
 Print Assumptions C09_fit_terminates.
 Print Assumptions C09_fit_stops.
 Print Assumptions C09_leaves_le_max_leaves_and_node_count.
